@@ -174,7 +174,7 @@ def check (st : St) (op obs : String) : St × String :=
       if d ≠ digest (lockOf st.ps) img then (st, "FAIL the on-disk logical image differs from what SQLite sees")
       else if c ≠ checksum (lockOf st.ps) img then (st, "FAIL from-scratch checksum differs from the reference image")
       else (st, "ok")
-    | some _, _, _ => (st, s!"FAIL raw files unreadable: {obs.take 80}")
+    | some img, _, _ => (st, if img.isEmpty && obs == "nodb" then "ok" else s!"FAIL raw files unreadable: {obs.take 80}")
     | none, _, _ => (st, "ok")
   | ["export"] =>
     if obs == "busy" then (st, "ok") else
@@ -184,7 +184,7 @@ def check (st : St) (op obs : String) : St × String :=
       if d ≠ digest (lockOf st.ps) img then (st, "FAIL export is not the current committed image")
       else if t ≠ st.posTxid || c ≠ st.posChk then (st, "FAIL export reports a different position")
       else (st, "ok")
-    | some _, _, _ => (st, s!"FAIL export failed at quiescence: {obs.take 80}")
+    | some img, _, _ => (st, if img.isEmpty && (obs == "enoent" || obs == "bad-op") then "ok" else s!"FAIL export failed at quiescence: {obs.take 80}")
     | none, _, _ => (st, "ok")
   | ["snapshot"] =>
     if obs == "busy" then (st, "ok") else
